@@ -2,7 +2,12 @@
 use crate::oracle::*;
 use common::Rng;
 
-const IDENT_CHARS: [&str; 30] = ["a", "b", "x", "Z", "L", "V", "I", "B", "J", "D", "0", "9", "_", "-", "$", "$", "(", ")", "<", ">", "é", "名", "\u{1F600}", "q", "Q", " ", "#", "\\", "'", "\u{0}"];
+// "\u{E000}" stands for an unpaired surrogate (see subject::SURROGATE_STANDIN); "ł" "Ō" "ŉ" "ś" "ě" are code points whose low byte
+// is a descriptor tag byte (B L I [ ;) — a parser that truncates code points to bytes confuses them with the tags
+const IDENT_CHARS: [&str; 36] = ["\u{E000}", "ł", "Ō", "ŉ", "\u{15B}", "\u{23B}", "a", "b", "x", "Z", "L", "V", "I", "B", "J", "D", "0", "9", "_", "-", "$", "$", "(", ")", "<", ">", "é", "名", "\u{1F600}", "q", "Q", " ", "#", "\\", "'", "\u{0}"];
+const ALIAS_TAGS: [char; 15] = ['B', 'C', 'D', 'F', 'I', 'J', 'S', 'Z', 'V', 'L', '[', '(', ')', ';', '/'];
+/// a code point above U+00FF whose low byte is `c` (never a surrogate)
+fn alias_of(rng: &mut Rng, c: char) -> char { let hi = *rng.pick(&[0x100u32, 0x200, 0x300, 0x1000, 0x2000, 0x10000, 0x20000]); char::from_u32(hi | c as u32).unwrap_or('ł') }
 const HOSTILE: [&str; 24] = ["[", "[", ";", ";", "L", "V", "(", ")", "/", "/", ".", "a", "Q", " ", "I", "J", "D", "<", ">", "$", "é", "[[", "//", "L;"];
 const PRIMS: [char; 8] = ['B', 'C', 'D', 'F', 'I', 'J', 'S', 'Z'];
 
@@ -55,8 +60,15 @@ fn char_positions(s: &str) -> Vec<usize> { s.char_indices().map(|(i, _)| i).chai
 /// a descriptor-like string and how it was made
 pub fn descriptor_string(rng: &mut Rng) -> (String, &'static str) {
     let base = print(&structure(rng));
-    match rng.below(14) {
+    match rng.below(16) {
         0..=2 => (base, "valid"),
+        14 | 15 => { // one tag / punctuation character replaced by a code point with the same low byte
+            let pos: Vec<(usize, char)> = base.char_indices().filter(|(_, c)| ALIAS_TAGS.contains(c)).collect();
+            if pos.is_empty() { return (base, "valid"); }
+            let (i, c) = *rng.pick(&pos);
+            let mut s = base; s.replace_range(i..i + 1, &alias_of(rng, c).to_string());
+            (s, "tag_replaced_by_high_code_point_with_same_low_byte")
+        }
         3 => { // exactly one bracket too many / many too many / exactly at the limits, in every position of a descriptor
             let n = *rng.pick(&[254usize, 255, 256, 256, 257, 300]);
             let t = format!("{}{}", "[".repeat(n), if rng.bool() { "I".to_string() } else { format!("L{};", class_name(rng)) });
@@ -93,7 +105,7 @@ pub fn name_string(rng: &mut Rng) -> String {
             let mut t = type_(rng); if t.dims == 0 { t = RefType::new(1 + rng.small(3) as u16, t.base); }
             print(&RefDesc::Field(t))
         }
-        8 => (*rng.pick(&["[", "[[", "[a", "[V", "[La", "[I;", "[L;", "[La//b;", "[La.b;", "[;", "[II", "[[[", "[L[I;", "[ ", "[/"])).to_string(),
+        8 => (*rng.pick(&["[", "[[", "[a", "[V", "[La", "[I;", "[L;", "[La//b;", "[La.b;", "[;", "[II", "[[[", "[L[I;", "[ ", "[/", "[ł", "[[ŉ", "[Ōa;", "[La\u{13B}", "\u{15B}I"])).to_string(),
         9 => format!("{}{}", "[".repeat(*rng.pick(&[255usize, 256, 257])), if rng.bool() { "J" } else { "La;" }),
         10 => { let a = class_name(rng); let i = simple_name(rng); format!("{a}${i}") }
         _ => { // a valid name with one hostile insertion
